@@ -171,6 +171,13 @@ def _cls_hist(w):
 
 # ------------------------------------------------------------------ STFT: one inductive step
 
+EMIT_THRESHOLD = [None]      # samples after which the first frame is emitted, as the implementation does it (probed)
+
+
+def _emit_thr(L, S, style, kaldi):
+    return EMIT_THRESHOLD[0] if EMIT_THRESHOLD[0] is not None else sc.first_len(L, S, style, kaldi)
+
+
 def _state(ns, L, S, style, kaldi):
     """arbitrary pre-state satisfying the streaming invariant Inv(T).
 
@@ -191,9 +198,9 @@ def _state(ns, L, S, style, kaldi):
     ext = lambda i: sc.x(z3.If(i < pl, pl - 1 - i, i - pl))
     junk = z3.Function('junkS', sc.I, sc.R)
     c.assume(T >= 0, F >= 0)
-    c.assume(z3.Implies(first, z3.And(F == 0, T < sc.first_len(L, S, style, kaldi), bl == T)))
+    c.assume(z3.Implies(first, z3.And(F == 0, T < _emit_thr(L, S, style, kaldi), bl == T)))
     c.assume(z3.Implies(z3.Not(first), z3.And(F >= 1, bl == pl + T - F * S, bl >= L - S, bl < L, bl >= 0,
-                                             pl + T >= L)))
+                                             pl + T >= L, T >= _emit_thr(L, S, style, kaldi))))
     isfirst = decide(first)
     o._first_frame = isfirst
     o._started = True
@@ -209,7 +216,18 @@ def run_stft_step(cfg):
     L, S, style, kaldi, CMAX = cfg['L'], cfg['S'], cfg['style'], cfg['kaldi'], cfg['CMAX']
     ns = sc.load_compute()
     out = dict(obligations=0, discharged=0, violations=[], samples=[], notes=[])
-    strong = _step(cfg, ns, True, out, probe=True)
+    # when does the implementation emit its first frame?  Either as soon as the first frame can be formed (first_len) or
+    # only once the signal is long enough for compute_full to emit anything (frame_length // 2 + 1): discovered by
+    # probing which invariant the step re-establishes; finalize is then checked from that invariant
+    fl0 = sc.first_len(L, S, style, kaldi)
+    cands = [max(fl0, L // 2 + 1)] + ([fl0] if fl0 < L // 2 + 1 else [])
+    strong = False
+    for thr in cands:
+        EMIT_THRESHOLD[0] = thr
+        strong = _step(cfg, ns, True, out, probe=True)
+        if strong or _step(cfg, ns, False, out, probe=True):
+            break
+    out['notes'].append('%s: first frame emitted after %d samples (first frame needs %d, compute_full needs %d)' % (cfg['name'], EMIT_THRESHOLD[0], fl0, L // 2 + 1))
     hist = bool(strong)
     out['notes'].append('%s: invariant used: %s' % (cfg['name'], 'rolling L-sample history' if hist else 'remainder only'))
     _step(cfg, ns, hist, out, probe=False)
@@ -230,7 +248,7 @@ def _mk_state_buf(o, L, S, bl, T, F, ext, junk, isfirst, hist):
 
 def _step(cfg, ns, hist, out, probe):
     L, S, style, kaldi, CMAX = cfg['L'], cfg['S'], cfg['style'], cfg['kaldi'], cfg['CMAX']
-    fl1 = sc.first_len(L, S, style, kaldi)
+    fl1 = _emit_thr(L, S, style, kaldi)
     ok_all = True
 
     def body():
